@@ -29,6 +29,10 @@ CLAIMS = {
    text="Scan plus checked justifications plus bounded repetition. Every range-over-map loop of the repository (the only source of run-to-run variation: the scan also proves that planning code uses no clock, random numbers, goroutines or select) must carry a maprange justification in the contract file; for kind 'accumulate' the machinery checks on the current code that the loop has no early exit and that its body (with all callees) emits neither commands nor warnings, the written argument says why the accumulated data is order free (keyed by the iteration key, idempotent set insertion, sorted afterwards); kind 'first-match' is argued by uniqueness. A new or changed map iteration without justification fails a named obligation. Four genuine order dependences were found and repaired (fix: d080655, 7f02745, b43d2d5, 1428671). Bounded: the real planners are run repeatedly in one process on all test-data cases and on tie inputs and compared byte for byte.",
    note="Not a proof: the order-freedom arguments are reviewed text, only their mechanical preconditions are checked; cisco MergeSpoc loops 2 and 3 (recursive mergeCmds under a map iteration) are explicitly not proved and rely on the bounded runs; error message text is not treated as observable.",
    tech='syntactic scan + contract-file justifications with mechanically checked side conditions + bounded repeated execution of the real code'),
+ 'C18': dict(category='other', design_ref='DESIGN.md §4 C18',
+   text="Deductive proof of the merge kernels on the real code: cisco mergeIOSACLs and mergeASAACLs - the [APPEND] block is inserted at a position i with 0 <= i <= len, directly behind the last permit line (or in front if there is none), no permit line follows the block, the block keeps its order, the prepended lines come first in their order and no line is lost (pointwise, quantified postconditions over the result list; two of the ASA clauses need ~80 s and run in the thorough tier only); nsx MergeSpoc - groups and services are the concatenation old ++ other, existing policies stay in place; panos MergeSpoc - no rule is lost and only rules without <APPEND> go on top. Two genuine defects were found and repaired ([APPEND] without permit line; reversed order of Linux raw rules).",
+   note="Not covered by contracts: the interleaving postcondition of linux MergeSpoc (only the fix and its replay), the exact order inside PAN-OS top/append groups, NSX rule multisets per policy, recursion through mergeCmds/mergeRefs (name clashes, doubly referenced objects) and the strictness of raw parsing (unknown sub-commands) - so this is not a proof of the whole property. mergeASAACLs assumes a.lookup[prefix] exists (created by MergeSpoc's first loop).",
+   tech='contract-based deductive verification: quantified pointwise postconditions over slices, loop invariants, site assertions with ghost captures'),
  'C20': dict(category='other', design_ref='DESIGN.md §4 C20, §9',
    text="Two-part check. Deductive part: a zero-annotation safety sweep turns every index, slice, nil-dereference, map-write, type-assertion, division and explicit-panic site of every repository function (about 3100 sites) into an obligation over symbolic inputs; the ~2400 sites discharged on the unchanged tree (committed baseline) are proved panic-free for all inputs and must stay discharged - a change that removes a length check fails the named site obligation, usually with a model; the ~700 undecided sites are not claimed. Bounded part: the property's own finite family (word-prefix truncations, token deletions/duplications/swaps, double blanks, indentation changes, line deletion/duplication, JSON/XML structural mutations, empty/garbage files, info files) is executed on the real ParseConfig/MergeSpoc/GetChanges of all five device types; a runtime panic is a confirmed failing input and is reported without the no-failing-input-found suffix. 10 genuine defects found this way were repaired (fix: commits), two test-pinned deliberate panics are known findings.",
    note="Not a proof of the whole property: undecided sites, termination ('never hang'), status-file and command-line handling are not covered by the deductive part; the bounded part mutates only the first 2 (quick) / 25 (thorough) lines of each test-data text. Assumptions: elements of slices of pointers to repository structs are non-nil (checked at every store in repository code, trusted for encoding/xml; encoding/json nulls are rejected by the repaired NSX parser); library calls do not panic.",
